@@ -22,13 +22,13 @@
        transactions) is not covered by the proofs; the check's oracle evaluates the statement on
        every history, after every action. *)
 From Coq Require Import ZArith List Bool Permutation.
-From V Require Import Model.ZMap Model.Quorum Model.Voting Model.VotingRef Model.HgImpl
+From V Require Import Model.ZMap Model.Quorum Model.Voting Model.VotingRef Model.HgImpl Model.PeerSetSpec
   Proofs.VotingProofs Proofs.VotingTheorems Proofs.FameBridge Proofs.AdmissionProofs Proofs.BlockInv
   Proofs.OrderProofs Proofs.Static Proofs.FirstDesc Proofs.CInvRun Proofs.SameHistory Proofs.Agreement
   Proofs.NoFail Proofs.AgreementU Proofs.FameInv Proofs.FamousSet Proofs.DecidedFlag Proofs.RoundReceived
   Proofs.BlockAgree Proofs.AgreementWitness Proofs.WindowWitness
   Model.Window Proofs.WindowStable Proofs.GapWindow Proofs.RoundAgreeD Proofs.ShrinkWitness
-  Model.VotingRefD Proofs.VotingProofsD Proofs.RoundOrder Proofs.CInvRunD Proofs.ViewOk Proofs.ViewOkD Proofs.SameHistoryD Proofs.AgreementD Proofs.FameInvD Proofs.LateWitnessD Proofs.FamousSetD Proofs.DecidedFlagD Proofs.RoundReceived Proofs.RoundReceivedD Proofs.Undetermined Proofs.UndeterminedD Proofs.BlockAgreeD.
+  Model.VotingRefD Proofs.VotingProofsD Proofs.RoundOrder Proofs.CInvRunD Proofs.ViewOk Proofs.ViewOkD Proofs.SameHistoryD Proofs.AgreementD Proofs.FameInvD Proofs.LateWitnessD Proofs.FamousSetD Proofs.DecidedFlagD Proofs.RoundReceived Proofs.RoundReceivedD Proofs.Undetermined Proofs.UndeterminedD Proofs.BlockAgreeD Proofs.BlockPeersD.
 Import ListNotations.
 Open Scope Z_scope.
 
@@ -699,11 +699,12 @@ Print Assumptions C01_round_received_complete_dynamic.
        distance bound says it has no round R + 6 yet;
    (2) hence every premise [tables_agree] above is discharged: rounds, witness flags, fame and round-received of shared
        events agree (C01_consensus_values_agree_dynamic);
-   (3) the k-th delivered blocks have the same index, round-received, transactions and internal transactions
-       (C01_agreement_dynamic_gap): the ledgers of the two nodes -- and the sequences of membership changes -- are
-       prefix-comparable.
-   NOT compared (unlike the static C01_agreement): the block timestamp, the frame hash (roots, per-frame peer-set
-   history) and the block's peers field.  Without the distance bound the statement is false: C01_agreement_dynamic_refuted,
+   (3) the k-th delivered blocks have the same index, round-received, timestamp, transactions, internal transactions
+       and peers (C01_agreement_dynamic_gap): the ledgers of the two nodes -- and the sequences of membership changes --
+       are prefix-comparable (C01_agreement_prefix_dynamic_gap).  The timestamp is the median over the timestamps of
+       the famous witnesses of the round received (C18), which agree as sets; the peers field is the table entry of the
+       round received (C01_block_peers_dynamic), and the tables agree.
+   NOT compared (unlike the static C01_agreement): the frame hash (roots, per-frame peer-set history).  Without the distance bound the statement is false: C01_agreement_dynamic_refuted,
    C01_dynamic_fork_by_scheduling (open known finding C01-window-fork).  With the pre-fix fame quorum it was false even under the bound:
    C01_fame_threshold_regression. *)
 Theorem C01_tables_agree_dynamic : forall all genesis self1 self2 oracle1 oracle2 ops1 ops2,
@@ -738,12 +739,40 @@ Theorem C01_agreement_dynamic_gap : forall all genesis self1 self2 oracle1 oracl
   let st2 := hrun (init_hg self2 genesis oracle2) ops2 in
   failed st1 = false -> failed st2 = false ->
   nth_error (delivered st1) k = Some d1 -> nth_error (delivered st2) k = Some d2 ->
-  b_index d1 = b_index d2 /\ b_rr d1 = b_rr d2 /\ b_txs d1 = b_txs d2 /\ b_itxs d1 = b_itxs d2.
+  (b_index d1, b_rr d1, b_ts d1, b_txs d1, b_itxs d1, b_peers d1) =
+  (b_index d2, b_rr d2, b_ts d2, b_txs d2, b_itxs d2, b_peers d2).
 Proof.
   exact (fun all g s1 s2 o1 o2 ops1 ops2 k d1 d2 ID SK FF S1 S2 H1 H2 B1 B2 F1 F2 =>
-           blocks_agree_gap all g ID SK FF s1 s2 o1 o2 ops1 ops2 S1 S2 H1 H2 B1 B2 F1 F2 k d1 d2).
+           blocks_agree_gap_full all g ID SK FF s1 s2 o1 o2 ops1 ops2 S1 S2 H1 H2 B1 B2 F1 F2 k d1 d2).
 Qed.
 Print Assumptions C01_agreement_dynamic_gap.
+
+(* ... hence the shorter delivered sequence is a prefix of the longer one ([cbodyD d], Proofs/BlockPeersD.v, is the
+   6-tuple of C01_agreement_dynamic_gap) *)
+Theorem C01_agreement_prefix_dynamic_gap : forall all genesis self1 self2 oracle1 oracle2 ops1 ops2,
+  ids_determine all -> sigkeys_determine all -> fork_free all -> self1 <> -1 -> self2 <> -1 ->
+  Forall (hop_ok all) ops1 -> Forall (hop_ok all) ops2 ->
+  gap_runb (init_hg self1 genesis oracle1) ops1 = true -> gap_runb (init_hg self2 genesis oracle2) ops2 = true ->
+  let st1 := hrun (init_hg self1 genesis oracle1) ops1 in
+  let st2 := hrun (init_hg self2 genesis oracle2) ops2 in
+  failed st1 = false -> failed st2 = false ->
+  (length (delivered st1) <= length (delivered st2))%nat ->
+  map cbodyD (delivered st1) = firstn (length (delivered st1)) (map cbodyD (delivered st2)).
+Proof.
+  exact (fun all g s1 s2 o1 o2 ops1 ops2 ID SK FF => blocks_prefix_gap all g ID SK FF s1 s2 o1 o2 ops1 ops2).
+Qed.
+Print Assumptions C01_agreement_prefix_dynamic_gap.
+
+(* the peers field of a delivered block, in EVERY run that has not failed (no distance bound, no second node): it is
+   the validator set the table of the node gives for the block's round-received, which is genesis modified, in block
+   order, by exactly the accepted receipts of the delivered blocks with round-received + 6 <= that round *)
+Theorem C01_block_peers_dynamic : forall all self_ genesis oracle_ ops d,
+  self_ <> -1 -> ids_determine all -> Forall (hop_ok all) ops ->
+  let st := hrun (init_hg self_ genesis oracle_) ops in
+  failed st = false -> In d (delivered st) ->
+  b_peers d = validators_at genesis (delivered st) (b_rr d) /\ get_peerset st (b_rr d) = Some (b_peers d).
+Proof. exact block_peers_spec. Qed.
+Print Assumptions C01_block_peers_dynamic.
 
 (* REGRESSION WITNESS for fix 05eda0b (known finding C01-fame-threshold-after-shrink): A SECOND FORK UNDER
    DYNAMIC MEMBERSHIP, INDEPENDENT OF THE WINDOW, in the code before the fix.  DecideFame decided at a round-j witness
